@@ -197,46 +197,56 @@ pub use envimp::Env;
 //-----------------------------------------------------------------------------
 // IntVectorWriter
 
-/// What happens after the pushes.
-pub const CLOSE: u8 = 0; // close(); close() again; drop
-pub const DROP: u8 = 1; // drop without close()
+/// Creation must succeed (asserted); `None` only on the failed-assertion path.
+pub fn created<T>(r: std::io::Result<T>) -> Option<T> {
+    let ok = r.is_ok();
+    assert!(ok);
+    match r { Ok(x) => Some(x), Err(e) => { std::mem::forget(e); None } }
+}
 
-fn int_finish(env: &Env, mut writer: IntVectorWriter, v: &IntVector, k: usize, how: u8) {
-    assert!(writer.len() == k);
-    assert!(writer.is_open());
+fn expected_int(v: &IntVector) -> Snap {
     let mut expected = Snap::empty();
     expected.push_ser(v);
     assert!(expected.len == v.size_in_bytes());
-    if how == CLOSE {
-        assert!(writer.close().is_ok());
-        assert!(!writer.is_open());
-        assert!(writer.len() == k);
-        let s1 = env.snap();
-        same(&s1, &expected);
-        if let Some(c) = env.closes() { assert!(c == 1); }
-        // idempotent
-        assert!(writer.close().is_ok());
-        assert!(!writer.is_open());
-        assert!(writer.len() == k);
-        let s2 = env.snap();
-        same(&s2, &s1);
-        drop(writer);
-        let s3 = env.snap();
-        same(&s3, &s1);
-        if let Some(c) = env.closes() { assert!(c == 1); }
-    } else {
-        drop(writer);
-        let s1 = env.snap();
-        same(&s1, &expected);
-        if let Some(c) = env.closes() { assert!(c == 1); }
-    }
+    expected
+}
+
+/// close(); close() again; drop: the file is `expected` after the first close and stays so.
+fn int_finish_close(env: &Env, mut writer: IntVectorWriter, v: &IntVector, k: usize) {
+    assert!(writer.len() == k && writer.is_open());
+    let expected = expected_int(v);
+    let ok1 = writer.close().is_ok();
+    assert!(ok1 && !writer.is_open() && writer.len() == k);
+    let s1 = env.snap();
+    same(&s1, &expected);
+    if let Some(c) = env.closes() { assert!(c == 1); }
+    // idempotent
+    let ok2 = writer.close().is_ok();
+    assert!(ok2 && !writer.is_open() && writer.len() == k);
+    let s2 = env.snap();
+    same(&s2, &s1);
+    drop(writer);
+    let s3 = env.snap();
+    same(&s3, &s1);
+    if let Some(c) = env.closes() { assert!(c == 1); }
     if let Some(o) = env.opens() { assert!(o == 1); }
 }
 
-/// `k` symbolic values pushed through an IntVectorWriter of width `w` with a `b`-item buffer.
-pub fn int_push(w: usize, b: usize, k: usize, how: u8) {
-    let env = Env::new();
-    let mut writer = match IntVectorWriter::with_buf_len(env.name(), w, b) { Ok(x) => x, Err(_) => { assert!(false); return; } };
+/// drop without close(): the same complete file.
+fn int_finish_drop(env: &Env, writer: IntVectorWriter, v: &IntVector, k: usize) {
+    assert!(writer.len() == k && writer.is_open());
+    let expected = expected_int(v);
+    drop(writer);
+    let s1 = env.snap();
+    same(&s1, &expected);
+    if let Some(c) = env.closes() { assert!(c == 1); }
+    if let Some(o) = env.opens() { assert!(o == 1); }
+}
+
+/// `k` symbolic values pushed through an IntVectorWriter of width `w` with a `b`-item buffer
+/// and, in step, into an IntVector.
+fn int_pushes(env: &Env, w: usize, b: usize, k: usize) -> Option<(IntVectorWriter, IntVector)> {
+    let mut writer = match created(IntVectorWriter::with_buf_len(env.name(), w, b)) { Some(x) => x, None => return None };
     let mut v = IntVector::new(w).unwrap();
     assert!(writer.len() == 0 && writer.is_empty() && writer.width() == w && writer.is_open());
     let mut i = 0;
@@ -247,14 +257,26 @@ pub fn int_push(w: usize, b: usize, k: usize, how: u8) {
         i += 1;
         assert!(writer.len() == i);
     }
-    int_finish(&env, writer, &v, k, how);
+    Some((writer, v))
+}
+
+/// Pushes, close, close again, drop.
+pub fn int_close(w: usize, b: usize, k: usize) {
+    let env = Env::new();
+    if let Some((writer, v)) = int_pushes(&env, w, b, k) { int_finish_close(&env, writer, &v, k); }
+}
+
+/// Pushes, then the open writer is dropped.
+pub fn int_drop(w: usize, b: usize, k: usize) {
+    let env = Env::new();
+    if let Some((writer, v)) = int_pushes(&env, w, b, k) { int_finish_drop(&env, writer, &v, k); }
 }
 
 /// `Extend<T>` on the writer (T by `t`: 0 u64, 1 u8, 2 u16, 3 u32, 4 usize) == repeated push:
 /// one pushed item, then `k` items by one `extend`, then one pushed item.
 pub fn int_extend(w: usize, b: usize, k: usize, t: u8) {
     let env = Env::new();
-    let mut writer = match IntVectorWriter::with_buf_len(env.name(), w, b) { Ok(x) => x, Err(_) => { assert!(false); return; } };
+    let mut writer = match created(IntVectorWriter::with_buf_len(env.name(), w, b)) { Some(x) => x, None => return };
     let mut v = IntVector::new(w).unwrap();
     let first = sym::u64();
     writer.push(first);
@@ -279,7 +301,7 @@ pub fn int_extend(w: usize, b: usize, k: usize, t: u8) {
     let last = sym::u64();
     writer.push(last);
     v.push(last);
-    int_finish(&env, writer, &v, k + 2, CLOSE);
+    int_finish_close(&env, writer, &v, k + 2);
 }
 
 /// An invalid width `w` (0 or > 64) is refused before anything is opened.
@@ -292,16 +314,19 @@ pub fn int_bad_width(w: usize) {
     assert!(env.snap().len == 0);
 }
 
+/// The real `write_all` loop over a `write` that transfers at most `chop` bytes per call
+/// (short writes that later succeed) still leaves the complete file. Ghost file only.
+pub fn int_chopped(w: usize, b: usize, k: usize, chop: usize) {
+    let mut env = Env::new();
+    env.set_chop(chop);
+    if let Some((writer, v)) = int_pushes(&env, w, b, k) { int_finish_close(&env, writer, &v, k); }
+}
+
 //-----------------------------------------------------------------------------
 // RawVectorWriter
 
 /// Code of a `push_bit` in an `ops` list; codes 0..=64 are `push_int(value, code)`.
 pub const BIT: usize = 100;
-
-/// User header of the parent structure at close: CLOSE_HEADER = `close_with_header` with `h`
-/// symbolic words (the placeholder passed at creation has `h` other symbolic words, which is
-/// the protocol IntVectorWriter follows); CLOSE / DROP need `h == 0`.
-pub const CLOSE_HEADER: u8 = 2;
 
 fn sym_header(h: usize) -> Vec<u64> {
     let mut v: Vec<u64> = Vec::with_capacity(h + 2);
@@ -311,15 +336,15 @@ fn sym_header(h: usize) -> Vec<u64> {
 }
 
 /// Pushes `ops` (symbolic bit / symbolic value of the given concrete width each) through a
-/// RawVectorWriter with a `buf_bits`-bit buffer and an `h`-word user header.
-pub fn raw_mix(buf_bits: usize, ops: &[usize], h: usize, how: u8) {
-    assert!(how == CLOSE_HEADER || h == 0);
-    let env = Env::new();
+/// RawVectorWriter with a `buf_bits`-bit buffer created with an `h`-word symbolic placeholder
+/// header and, in step, into a RawVector.
+fn raw_pushes(env: &Env, buf_bits: usize, ops: &[usize], h: usize) -> Option<(RawVectorWriter, RawVector, usize)> {
     let mut placeholder = sym_header(h);
-    let mut writer = match RawVectorWriter::with_buf_len(env.name(), &mut placeholder, buf_bits) { Ok(x) => x, Err(_) => { assert!(false); return; } };
+    let mut writer = match created(RawVectorWriter::with_buf_len(env.name(), &mut placeholder, buf_bits)) { Some(x) => x, None => return None };
     let mut v = RawVector::new();
     assert!(writer.len() == 0 && writer.is_empty() && writer.is_open());
     let mut bits = 0;
+    let mut len_ok = true;
     let mut i = 0;
     while i < ops.len() {
         if ops[i] == BIT {
@@ -333,59 +358,56 @@ pub fn raw_mix(buf_bits: usize, ops: &[usize], h: usize, how: u8) {
             bits += ops[i];
         }
         i += 1;
-        assert!(writer.len() == bits);
+        len_ok &= writer.len() == bits;
     }
-    assert!(v.len() == bits);
-    assert!(writer.is_open());
+    // len() counted every push (one assertion after the loop: an empty `ops` never enters it)
+    assert!(len_ok && v.len() == bits && writer.is_open());
+    Some((writer, v, bits))
+}
 
+/// Pushes, then `close_with_header` with `h` symbolic user-header words (`with_header`; the
+/// placeholder at creation had `h` OTHER symbolic words -- the protocol IntVectorWriter follows)
+/// or plain `close()` (`h` must be 0); then both closes again; then drop.
+/// File == user header ++ serialize(RawVector).
+pub fn raw_close(buf_bits: usize, ops: &[usize], h: usize, with_header: bool) {
+    assert!(with_header || h == 0);
+    let env = Env::new();
+    let (mut writer, v, bits) = match raw_pushes(&env, buf_bits, ops, h) { Some(x) => x, None => return };
     let mut header = sym_header(h);
     let mut expected = Snap::empty();
     let mut j = 0;
     while j < h { expected.push_word(header[j]); j += 1; }
     expected.push_ser(&v);
     assert!(expected.len == 8 * h + v.size_in_bytes());
-
-    if how == DROP {
-        drop(writer);
-        let s1 = env.snap();
-        same(&s1, &expected);
-        if let Some(c) = env.closes() { assert!(c == 1); }
-    } else {
-        if how == CLOSE_HEADER { assert!(writer.close_with_header(&mut header).is_ok()); } else { assert!(writer.close().is_ok()); }
-        assert!(!writer.is_open());
-        assert!(writer.len() == bits);
-        let s1 = env.snap();
-        same(&s1, &expected);
-        if let Some(c) = env.closes() { assert!(c == 1); }
-        // idempotent, through both entry points
-        assert!(writer.close().is_ok());
-        let mut again = sym_header(h);
-        assert!(writer.close_with_header(&mut again).is_ok());
-        assert!(!writer.is_open());
-        assert!(writer.len() == bits);
-        let s2 = env.snap();
-        same(&s2, &s1);
-        drop(writer);
-        let s3 = env.snap();
-        same(&s3, &s1);
-        if let Some(c) = env.closes() { assert!(c == 1); }
-    }
+    let ok1 = if with_header { writer.close_with_header(&mut header).is_ok() } else { writer.close().is_ok() };
+    assert!(ok1 && !writer.is_open() && writer.len() == bits);
+    let s1 = env.snap();
+    same(&s1, &expected);
+    if let Some(c) = env.closes() { assert!(c == 1); }
+    // idempotent, through both entry points
+    let ok2 = writer.close().is_ok();
+    let mut again = sym_header(h);
+    let ok3 = writer.close_with_header(&mut again).is_ok();
+    assert!(ok2 && ok3 && !writer.is_open() && writer.len() == bits);
+    let s2 = env.snap();
+    same(&s2, &s1);
+    drop(writer);
+    let s3 = env.snap();
+    same(&s3, &s1);
+    if let Some(c) = env.closes() { assert!(c == 1); }
     if let Some(o) = env.opens() { assert!(o == 1); }
 }
 
-/// The real `write_all` loop over a `write` that transfers at most `chop` bytes per call
-/// (short writes that later succeed) still leaves the complete file. Ghost file only.
-pub fn int_chopped(w: usize, b: usize, k: usize, chop: usize) {
-    let mut env = Env::new();
-    env.set_chop(chop);
-    let mut writer = match IntVectorWriter::with_buf_len(env.name(), w, b) { Ok(x) => x, Err(_) => { assert!(false); return; } };
-    let mut v = IntVector::new(w).unwrap();
-    let mut i = 0;
-    while i < k {
-        let x = sym::u64();
-        writer.push(x);
-        v.push(x);
-        i += 1;
-    }
-    int_finish(&env, writer, &v, k, CLOSE);
+/// Pushes (no user header), then the open writer is dropped: the same complete file.
+pub fn raw_drop(buf_bits: usize, ops: &[usize]) {
+    let env = Env::new();
+    let (writer, v, _bits) = match raw_pushes(&env, buf_bits, ops, 0) { Some(x) => x, None => return };
+    let mut expected = Snap::empty();
+    expected.push_ser(&v);
+    assert!(expected.len == v.size_in_bytes());
+    drop(writer);
+    let s1 = env.snap();
+    same(&s1, &expected);
+    if let Some(c) = env.closes() { assert!(c == 1); }
+    if let Some(o) = env.opens() { assert!(o == 1); }
 }
